@@ -961,3 +961,66 @@ Definition cfg_ok (c : jcfg) : bool :=
   && forallb (fun f => starts_underscore (snd f)) (reserved c)
   && starts_underscore (version_key c) && starts_underscore (generated_key c)
   && forallb (fun f => match type_shape c (fst f) with Some (KDigest, _) => false | Some (_, false) => true | _ => false end) (reserved c).
+
+(* ------------------------------------------------------------------------------------------ *)
+(* 6. writer options given as TEXT (constructor argument or URL query): indent=                  *)
+
+(* what the writer makes of an `indent` text, as observed: no indentation, an indentation LEVEL (json.dumps
+   inserts newlines and that many blanks: JSON white space), an indentation TEXT inserted literally before every
+   member, or a refusal (exception at construction) *)
+Inductive indent_obs := IndNone | IndLevel (z : Z) | IndText (t : text) | IndRejected.
+
+Definition is_blank (c : N) : bool := (c =? 32) || ((9 <=? c) && (c <=? 13)) || ((28 <=? c) && (c <=? 31)).
+Fixpoint strip_l (s : text) : text := match s with c :: r => if is_blank c then strip_l r else s | [] => [] end.
+Definition strip (s : text) : text := rev (strip_l (rev (strip_l s))).
+Definition is_digit (c : N) : bool := (48 <=? c) && (c <=? 57).
+
+(* digits with single underscores between them *)
+Fixpoint int_digits (acc : Z) (s : text) : option Z :=
+  match s with
+  | [] => Some acc
+  | c :: r =>
+      if is_digit c then int_digits (acc * 10 + Z.of_N (c - 48)) r
+      else if c =? 95 then
+        match r with
+        | d :: r' => if is_digit d then int_digits (acc * 10 + Z.of_N (d - 48)) r' else None
+        | [] => None
+        end
+      else None
+  end.
+
+Definition int_unsigned (s : text) : option Z :=
+  match s with
+  | c :: r => if is_digit c then int_digits (Z.of_N (c - 48)) r else None
+  | [] => None
+  end.
+
+(* Python's int(text) for ASCII decimal literals: blanks stripped, optional sign, digits / underscores *)
+Definition py_int_of_text (s : text) : option Z :=
+  match strip s with
+  | 43 :: r => int_unsigned r
+  | 45 :: r => match int_unsigned r with Some z => Some (- z)%Z | None => None end
+  | r => int_unsigned r
+  end.
+
+Definition is_json_ws (c : N) : bool := (c =? 32) || (c =? 9) || (c =? 10) || (c =? 13).
+
+Definition opt_Z_eqb (a b : option Z) : bool :=
+  match a, b with Some x, Some y => Z.eqb x y | None, None => true | _, _ => false end.
+
+(* an indentation text is harmless only if it is JSON white space; a level must be the number the text denotes; a
+   refusal is for texts that denote no number *)
+Definition indent_entry_ok (e : text * indent_obs) : bool :=
+  match snd e with
+  | IndNone => false
+  | IndLevel z => opt_Z_eqb (py_int_of_text (fst e)) (Some z)
+  | IndText t => forallb is_json_ws t
+  | IndRejected => opt_Z_eqb (py_int_of_text (fst e)) None
+  end.
+
+Record jopts := {
+  indent_table : list (text * indent_obs);      (* OBSERVED: spelling -> what JsonfileWriter did with it *)
+  descriptors_table : list (text * bool)        (* OBSERVED: spelling of descriptors= -> descriptor documents written? *)
+}.
+
+Definition options_ok (o : jopts) : bool := forallb indent_entry_ok (indent_table o).
